@@ -120,14 +120,18 @@ impl WalRecuperator {
         }
 
         // Try to deserialize as CreateTableInstr first
-        if let Ok(create_table_instr) = CreateTableInstr::from_bytes(redo_bytes) {
+        if let Ok(mut create_table_instr) = CreateTableInstr::from_bytes(redo_bytes) {
+            // Redo must be repeatable: after a crash between the checkpoint's page writes and the
+            // truncation of the log, the table is already there (redo_drop uses if_exists likewise).
+            create_table_instr.if_not_exists = true;
             let instr = DdlInstruction::CreateTable(create_table_instr);
             self.ddl_executor.execute_instruction(&instr)?;
             return Ok(());
         }
 
         // Try CreateIndexInstr
-        if let Ok(create_index_instr) = CreateIndexInstr::from_bytes(redo_bytes) {
+        if let Ok(mut create_index_instr) = CreateIndexInstr::from_bytes(redo_bytes) {
+            create_index_instr.if_not_exists = true;
             let instr = DdlInstruction::CreateIndex(create_index_instr);
             self.ddl_executor.execute_instruction(&instr)?;
             return Ok(());
